@@ -217,7 +217,7 @@ def gen_selector(rnd, meta):
     constrained = rnd.sample(allcaps, ncons)
     conds = []
 
-    def render(with_values):
+    def render(with_values, conds=conds):
         parts = {"f": [], "g": []}
         for fn, v in allcaps:
             txt = v
@@ -235,7 +235,14 @@ def gen_selector(rnd, meta):
 
     for c in constrained:
         conds.append((c, gen_constraint(rnd)))
+    # a second, independent set of conditions on the same captures (two conditional overrides on
+    # one variable)
+    conds2 = [(c, gen_constraint(rnd)) for c in rnd.sample(allcaps, rnd.randint(1, min(2, len(allcaps))))]
+    LAST_ALT[0] = (render(True, conds2), conds2)
     return render(True), render(False), conds, focus, total
+
+
+LAST_ALT = [None]
 
 
 def run_probe(ns, sel, n, m, total, override=None):
@@ -336,6 +343,37 @@ def part_b(spec, res):
                 except Exception as e:
                     res.violation(case, "override exception: " + common.fmt_exc(e))
                     continue
+                # two conditional overrides on the same variable: the one activated last wins where
+                # its condition holds, the other one applies where only its own condition holds
+                csel2, conds2 = LAST_ALT[0]
+                refs2 = {v: ref for (fn, v), (_s, ref, _d) in conds2}
+
+                def both_override(d, refs=refs, refs2=refs2, fv=fv):
+                    from ptera import ABSENT
+                    if all(ref(d[v]) for v, ref in refs2.items() if v in d):
+                        return d[fv] + 1000
+                    if all(ref(d[v]) for v, ref in refs.items() if v in d):
+                        return d[fv] + 100
+                    return ABSENT
+
+                try:
+                    with probing(csel, env=ns, overridable=True) as p:
+                        p.override(lambda d, fv=fv: d[fv] + 100)
+                        with probing(csel2, env=ns, overridable=True) as p2:
+                            p2.override(lambda d, fv=fv: d[fv] + 1000)
+                            got2 = ns["f"](n, m)
+                    with probing(usel, env=ns, overridable=True) as p:
+                        p.override(both_override)
+                        exp2 = ns["f"](n, m)
+                except Exception as e:
+                    res.violation(case, "override exception (two conditional overrides): " + common.fmt_exc(e))
+                    continue
+                res.deciding += 1
+                res.count("B_double_override_checks")
+                if got2 != exp2:
+                    res.violation(dict(case, override=True, csel2=csel2), f"two conditional overrides {csel} (+100, outer) and {csel2} (+1000, inner): got {got2}, reference {exp2}, plain {plain}")
+                if got2 not in (plain, got_r):
+                    res.count("B_double_override_both_applied")
                 res.deciding += 1
                 res.count("B_override_checks")
                 if got_r != exp_r:
